@@ -10,7 +10,8 @@ run_one(){
   prop=$(python3 -c "import json;print(json.load(open('seeded/$id/meta.json'))['breaks_property'])")
   extra=$(python3 -c "import json;m=json.load(open('seeded/$id/meta.json'));print(m.get('check_with',''))")
   [ -n "$extra" ] && prop=$extra
-  echo "$id: $(timeout 3000 tools/trymutant.sh $PWD/seeded/$id/patch.diff $prop | tr '\n' ' ' | cut -c1-200)"
+  nc=$(python3 -c "import json;m=json.load(open('seeded/$id/meta.json'));print('(recorded as NOT CAUGHT: see DESIGN 12) ' if m.get('not_caught') else '')")
+  echo "$id: $nc$(timeout 3000 tools/trymutant.sh $PWD/seeded/$id/patch.diff $prop | tr '\n' ' ' | cut -c1-200)"
 }
 export -f run_one
 echo "$ids" | xargs -P $J -I{} bash -c 'run_one {}'
